@@ -85,6 +85,10 @@ type Result struct {
 	Real     Outcome `json:"real"`
 	ScaledOk bool    `json:"scaledOk"`
 	Scaled   string  `json:"scaled"`
+	// outcomes of the scaled executions that differ from the unscaled one, divided
+	// back by their factor (only those that divide exactly), judged like Real
+	ScaledBad     []Outcome `json:"scaledBad"`
+	ScaledInexact bool      `json:"scaledInexact"`
 	Text     string  `json:"text"`
 	Again    bool    `json:"againSame"`
 }
@@ -344,24 +348,38 @@ func same(a, b Outcome) bool {
 	return true
 }
 
+var scaleFactors = func() []*big.Int {
+	p := func(n uint) *big.Int { return new(big.Int).Lsh(big.NewInt(1), n) }
+	return []*big.Int{p(70), p(62), new(big.Int).Sub(p(63), big.NewInt(1)), p(61), new(big.Int).Add(p(64), big.NewInt(7))}
+}()
+
 func runCase(c Case) Result {
 	one := big.NewInt(1)
 	text := render(c.Sends, one)
 	raw := execute(text, map[string]string{}, storeOf(c.Bal, one))
 	real, _ := outcomeOf(raw, one)
-	res := Result{Case: c, Real: real, ScaledOk: true, Text: text}
+	res := Result{Case: c, Real: real, ScaledOk: true, Text: text, ScaledBad: []Outcome{}}
 	// a second execution of the same text must give the same outcome
 	raw2 := execute(text, map[string]string{}, storeOf(c.Bal, one))
 	real2, _ := outcomeOf(raw2, one)
 	res.Again = same(real, real2)
 	if !hasAllot(c) && !strings.HasPrefix(real.Class, "panic") && real.Class != "hang" {
-		k := new(big.Int).Lsh(big.NewInt(1), 70)
-		rawS := execute(render(c.Sends, k), map[string]string{}, storeOf(c.Bal, k))
-		scaled, exact := outcomeOf(rawS, k)
-		res.ScaledOk = exact && same(scaled, real)
-		if !res.ScaledOk {
-			b, _ := json.Marshal(scaled)
-			res.Scaled = string(b)
+		// every amount multiplied by K: the outcome must be the same postings times K.
+		// The factors sit around the 2^63 / 2^64 boundaries so that some amounts of a
+		// case fit a machine word and others (or their sums) do not.
+		for _, k := range scaleFactors {
+			rawS := execute(render(c.Sends, k), map[string]string{}, storeOf(c.Bal, k))
+			scaled, exact := outcomeOf(rawS, k)
+			if !(exact && same(scaled, real)) {
+				res.ScaledOk = false
+				b, _ := json.Marshal(scaled)
+				res.Scaled = "x" + k.String() + ": " + string(b)
+				if exact {
+					res.ScaledBad = append(res.ScaledBad, scaled)
+				} else {
+					res.ScaledInexact = true
+				}
+			}
 		}
 	}
 	return res
